@@ -34,8 +34,10 @@ RE_RANGE_OP = re.compile(r"\.\.")
 RE_RULE_DOC = re.compile(r"///")
 RE_TAG = re.compile(r"#[_a-zA-Z][_a-zA-Z0-9]*(?=\s*=)")
 RE_WHITESPACE = re.compile(r"[ \t\n\r]+")
+# character = ${ "'" ~ (escape | ANY) ~ "'" }. A lone backslash is never a
+# character: `\'` is an escape, so nothing is left to close the literal.
 RE_CHAR = re.compile(
-    r"'\\[\\\"\r\n\t\0']'|'\\x[0-9a-fA-F]{2}'|'\\u\{[0-9a-fA-F]{2,6}\}'|'.'"
+    r"'(?:\\[\\\"rnt0']|\\x[0-9a-fA-F]{2}|\\u\{[0-9a-fA-F]{2,6}\}|[^\\])'"
 )
 RE_LINE_COMMENT = re.compile(r"//(?!/|!).*")
 RE_BLOCK_COMMENT = re.compile(r"/\*(?:[^*/]|\*(?!/)|/(?!\*)|(?R))*\*/")
